@@ -665,7 +665,7 @@ func BitsCoord(r *R) float64 {
 func FiniteBitsCoord(r *R) float64 {
 	for {
 		var f float64
-		switch r.Intn(10) {
+		switch r.Intn(11) {
 		case 0:
 			f = math.Copysign(0, -1)
 		case 1:
@@ -683,6 +683,11 @@ func FiniteBitsCoord(r *R) float64 {
 			if r.Chance(0.3) {
 				f = float64(math.Float32frombits(uint32(r.Uint64())))
 			}
+		case 7:
+			// whole numbers around the limits of the integer types (2^31, 2^53, 2^63, 2^64)
+			k := []int{24, 31, 32, 52, 53, 54, 62, 63, 64, 65}[r.Intn(10)]
+			f = math.Ldexp(1, k) * r.Range(0.5, 2)
+			f = math.Trunc(f) * float64(1-2*r.Intn(2))
 		case 6:
 			// short decimal values (1 to 6 decimals), as typed by people
 			f = math.Round(r.Range(-1000, 1000)*math.Pow(10, float64(r.Intn(7)))) / math.Pow(10, float64(r.Intn(7)))
